@@ -52,7 +52,15 @@ let install_listing register get geti getb =
     let l = List.length dir in
     let beh = scripted (nat_of_int l) (nat_of_int style) (nat_of_int k) in
     let ((acc, reqs), ended) = client_list (nat_of_int (l + 2)) dir beh (nat_of_int b) O [] O in
-    Printf.sprintf "names=%s. reqs=%x ok=%s" (String.concat "," (List.map str_of_bytes acc)) (int_of_nat reqs) (bool_s ended))
+    Printf.sprintf "names=%s. reqs=%x ok=%s" (String.concat "," (List.map str_of_bytes acc)) (int_of_nat reqs) (bool_s ended));
+  (* kind listpages (c10): a paginated handler lister against the same client_list (MaxFilelist = 100) *)
+  register "listpages" (fun kv ->
+    let e = geti kv "entries" and pg = geti kv "page" in
+    let style = if getb kv "eofwith" then 0 else 1 in
+    let dir = List.init e (fun i -> bytes_of_string (Printf.sprintf "e%04d" i)) in
+    let beh = paged (nat_of_int e) (nat_of_int pg) (nat_of_int style) in
+    let ((acc, reqs), ended) = client_list (nat_of_int (e + 2)) dir beh (nat_of_int 100) O [] O in
+    Printf.sprintf "n=%x calls=%x ok=%s" (List.length acc) (int_of_nat reqs) (bool_s ended))
 
 let install_lin register get =
   register "lin" (fun kv ->
